@@ -474,6 +474,29 @@ theorem restarted_queue_never_loses (fs0 : FS) (k c1 c2 id e ts : Nat) (later : 
       simpa [start, Sched.sIds] using hmem))).1
   exact ⟨C01.one_disposition hpre hrc hr id _ horig x hx, C01.accepted_never_lost hpre hrc hr id _ horig x hx⟩
 
+/-- The attempt counter `get` shows for a recovered message. -/
+def attOf (fs : FS) (id : Nat) : Nat :=
+  match recover fs id with
+  | some p => p.2.attempts
+  | none => 0
+
+/-- **The restarted queue continues the retry schedule** (C04 ∘ C01): started on the recovered ids, due times, recipients and
+    attempt counters (`QM.startAt`), the hand-offs of a recovered message carry the recovered counter, then counter + 1, … — and by
+    `acknowledged_message_survives` / `metaAfter_attempts` that counter is the number of `increment_attempts` calls that completed
+    before the crash (plus the interrupted one if its rename happened). -/
+theorem restarted_queue_continues_the_count (fs : FS) (ids : List Nat) (hnd : ids.Nodup) (envOf : Nat → List Nat)
+    (henv : ∀ e', (envOf e').Nodup) (fb : Bool) (nn : Nat → Bool) (id : Nat) (hid : id ∈ (loadOf fs ids).map (·.1)) {q : State}
+    (hr : Reach fb (startAt (loadOf fs ids) (rcptsOf envOf fs) nn (attOf fs)) q) :
+    ((q.handed.filter (·.1 == id)).reverse.map (·.2.2)) =
+      (List.range (q.handed.filter (·.1 == id)).length).map (· + attOf fs id) := by
+  have hrc : ∀ i ∈ (loadOf fs ids).map (·.1), (rcptsOf envOf fs i).Nodup := by
+    intro i _
+    simp only [rcptsOf]
+    split
+    · exact (delSeq_sublist _ _).nodup (henv _)
+    · simp
+  exact C01.attempt_numbers_continue (attOf fs) (loadOf_nodup fs ids hnd) hrc hr id hid
+
 end restartLedger
 
 /-! ### non-vacuity -/
